@@ -79,14 +79,16 @@ def build(config):
         leaf = TextTestResult(impl.text_stream, failfast=ff_inner)
     impl.leaves.append(leaf)
     obj = leaf
-    for w in wrappers:
+    for wi, w in enumerate(wrappers):
         if w == "multi1":
             obj = MultiTestResult(obj)
         elif w == "multi2":
             # "inner1": only the first underlying result was configured with failfast
             # "second-then-off": only the SECOND result was configured with failfast, and the
             # multiplexer's own failfast is switched off after wrapping (off for all, then)
-            other = rec.TT(failfast=(ff_inner and ff_mode != "inner1") or ff_mode == "second-then-off")
+            # (... of the OUTERMOST multiplexer: a failfast result deeper down, behind a Tagger or a
+            # forwarder that does not pass the attribute on, would be out of reach of the switch)
+            other = rec.TT(failfast=(ff_inner and ff_mode != "inner1") or (ff_mode == "second-then-off" and wi == len(wrappers) - 1))
             impl.leaves.append(other)
             obj = MultiTestResult(obj, other)
         elif w == "tfr":
